@@ -1935,14 +1935,28 @@ class Normalizer:
                 if fd is None and recv == "self":
                     # inherited from a base class of the same module (single chain of plain-name bases)
                     cur, hops = cdef, 0
+                    foreign = False
                     while fd is None and hops < 6:
-                        bs = [self.classes.get((modname, b)) for b in self._base_names(cur)]
+                        bs = [self.classes.get((modname, b)) for b in self._base_names(cur)] if not foreign else []
                         bs = [b for b in bs if b is not None]
+                        if not bs and len(cur.bases) == 1 and len(self._base_names(cur)) == 1 and len(self.by_bare.get(self._base_names(cur)[0], [])) == 1:
+                            # the base class lives in another module: its helper is taken only if it names nothing of that module
+                            bs, foreign = [self.by_bare[self._base_names(cur)[0]][0][1]], True
                         if len(bs) != 1 or len(cur.bases) != 1:
                             break
                         cur, hops = bs[0], hops + 1
                         fd = self._methods(cur).get(f.attr)
                         owner = cur.name
+                    if fd is not None and foreign:
+                        import builtins as _b
+                        free = {n.id for n in ast.walk(fd) if isinstance(n, ast.Name)} - _local_names(fd) - {a.arg for a in ast.walk(fd.args) if isinstance(a, ast.arg)} \
+                            - set(dir(_b))
+                        comp_t = {n.id for c_ in ast.walk(fd) if isinstance(c_, ast.comprehension) for n in ast.walk(c_.target) if isinstance(n, ast.Name)}
+                        # (bound: only procedures - helpers that hand nothing back; a value-returning method of a foreign base keeps its name, which is
+                        # what the rules about it read)
+                        if any(isinstance(n, ast.Return) and n.value is not None for n in ast.walk(fd)) or free - comp_t or any(isinstance(n, ast.Call) and isinstance(n.func, ast.Attribute) and isinstance(n.func.value, ast.Name) and n.func.value.id == "self"
+                                                for n in ast.walk(fd)):
+                            fd = None
                 if fd is None:
                     return None
                 q = f"{modname}:{owner}.{f.attr}"
